@@ -62,7 +62,11 @@ func ZZ_C14_daemonEndpoints() {
 			md.ChainHash = zz.Bytes("hash.sym32", 32)
 		}
 	}
-	ctx := context.Background()
+	// the caller has a deadline: a request for the round about to be produced waits for it, and nothing produces
+	// beacons here
+	ctx, cancel := context.WithCancel(context.Background())
+	defer cancel()
+	zz.WhenStuck(cancel)
 	zzContained(func() {
 		switch zz.Choose("endpoint", 5) {
 		case 0:
